@@ -60,6 +60,8 @@ def gen_case(rng, tier, wide=False):
     }
     if rng.random() < 0.3:
         case["wrap"] = rng.choice(["series", "series", "list"])
+    if rng.random() < 0.3:
+        case["relay"] = rng.choice([1, 2, 3, 5])
     nops = rng.randint(4, 14 if tier == "quick" else 30)
     ops, phase, next_id = [], None, 1
     p_illegal = rng.choice([0.0, 0.3, 0.3, 0.45])
@@ -173,6 +175,15 @@ def run_impl(case, mode=None):
         warnings.simplefilter("ignore")
         for k, op in enumerate(case["ops"]):
             name = op[0]
+            if case.get("relay") and k and k % case["relay"] == 0:
+                # checkpoint / resume: a deep copy of the whole scheduler (emitters, archives) continues exactly like the original,
+                # between iterations as well as between ask and tell
+                sch = copy.deepcopy(sch)
+                arch, ems = sch.archive, list(sch.emitters)
+                res = sch.result_archive if res is not None else None
+                if res is not None and res is arch:
+                    res = None      # reported below: the copy lost its result archive
+                    meta["lost_result_archive"] = True
             before = None
             snap = ([len(e.log) for e in ems], len(arch.calls), len(res.calls) if res is not None else None,
                     U.archive_contents(arch), U.archive_contents(res) if res is not None else None)
